@@ -4,7 +4,7 @@ UNITS = [
     Unit(name="c19.add", props=["C19", "C15", "C14"], tu="asmjit/core/constpool.cpp", roots=["asmjit::ConstPool::add"],
          stops=["asmjit::ConstPool::Tree::get", "asmjit::ConstPool::Tree::insert", "asmjit::ConstPool::Tree::new_node_t", "asmjit::Arena::alloc_oneshot"],
          target="ConstPool_add", contracts="contracts/c19_constpool.h",
-         replace=["ConstPool_Tree_get", "ConstPool_Tree_insert", "ConstPool_Tree_new_node_t", "Arena_alloc_oneshot_ConstPool_Gap_"], unwind=18, quick_unwind=8, quick_unwindset=["ConstPool_add_wrapped_for_contract_checking.2:2", "ConstPool_add_wrapped_for_contract_checking.1:3"], object_bits=9, quick_defines=["VERIF_MAXCONST=8"], thorough_defines=["VERIF_MAXCONST=64"], timeout=1700,
+         replace=["ConstPool_Tree_get", "ConstPool_Tree_insert", "ConstPool_Tree_new_node_t", "Arena_alloc_oneshot_ConstPool_Gap_"], unwind=18, quick_unwind=8, quick_unwindset=["ConstPool_add_wrapped_for_contract_checking.2:2", "ConstPool_add_wrapped_for_contract_checking.1:3"], object_bits=8, quick_defines=["VERIF_MAXCONST=8"], thorough_defines=["VERIF_MAXCONST=64"], timeout=1700,
          kind="bounded", bound_note="at most one gap per size class and one spare gap record on entry; pool size <= 2^30; constant sizes <= 8 bytes (quick) / all sizes (thorough), contents symbolic",
          trusted=["ConstPool::Tree::get/insert/new_node_t and Arena::alloc_oneshot<Gap> replaced by ASSUMED contracts (abstract set view of the red-black tree, 'NULL or fresh' allocator): not proved in this unit"]),
 ]
